@@ -38,14 +38,14 @@ ImportWords(ws) ==
         /\ synced' = IF (IF ResyncOnChange THEN changed ELSE grew) THEN u2 ELSE synced
   /\ UNCHANGED ignored /\ Log([op |-> "import", words |-> ws])
 IgnoreLint(t, i) ==
-  /\ nops < MaxOps /\ i \in LintOf(synced, ignored, t)
+  /\ nops < MaxOps /\ i \in DOMAIN t /\ i \in LintOf(synced, ignored, t)
   /\ ignored' = ignored \cup {Ctx(t, i)}
   /\ UNCHANGED <<user, synced>> /\ Log([op |-> "ignore", text |-> t, at |-> i])
 \* export ignored -> clear -> import ignored
 RoundTripIgnored == nops < MaxOps /\ UNCHANGED <<user, synced, ignored>> /\ Log([op |-> "ignored_roundtrip"])
 JNext == \/ \E w \in Vocab : ImportWords(<<w>>)
-         \/ \E w1, w2 \in Vocab : w1 # w2 /\ ImportWords(<<w1, w2>>)
-         \/ \E t \in Texts, i \in 1..2 : i \in DOMAIN t /\ IgnoreLint(t, i)
+         \/ \E w1, w2 \in Vocab : ImportWords(<<w1, w2>>)
+         \/ \E t \in Texts, i \in 1..2 : IgnoreLint(t, i)
          \/ RoundTripIgnored
 
 \* export_words -> new Linter -> import_words : the clone's state
